@@ -304,6 +304,35 @@ def codec_names_rule(prog, run, R="R8"):
             run.check(got.get(name) == want, R, "%s name `%s`" % (short, name), "-> %s" % want, "the documented name `%s` is %s, documented: %s" % (name, ("mapped to " + got[name]) if name in got else "not accepted", want))
     run.floor(R, n, 15, "documented codec names")
 
+_TEXT_IDENTITY = ("to_string", "to_owned", "from", "into", "clone", "as_str", "as_ref", "deref", "borrow", "to_str")
+
+
+def _identity_parser(u, ty):
+    """the named crate-local parser returns, on every Ok exit, the text it was given (a validation-only parser)"""
+    import re as _re
+    from .. import flow
+    m_ = _re.search(r"\{([A-Za-z0-9_:]+)\}", ty)
+    if not m_:
+        return None
+    cands = [p for p in u.bodies if mir.norm(p).split("::")[-1] == m_.group(1).split("::")[-1]]
+    if len(cands) != 1:
+        return None
+    b = u.bodies[cands[0]]
+    oks = [e for e in flow.exits(b) if e["kind"] not in ("err", "residual")]
+    if not oks:
+        return None
+    for e in oks:
+        if e["kind"] != "ok" or e["node"].get("k") != "assign":
+            return None
+        x = sym.expr(b, e["node"]["rv"]["ops"][0])
+        while isinstance(x, tuple) and x and ((x[0] == "call" and str(x[1]).split("::")[-1] in _TEXT_IDENTITY and x[2]) or x[0] in ("ref", "deref")):
+            x = x[2][0] if x[0] == "call" else x[1]
+        whole_arg = isinstance(x, tuple) and x and ((x[0] == "arg" and x[1] == 1) or (x[0] in ("refplace", "load") and x[1] == "arg1"))
+        if not whole_arg:
+            return None
+    return "%d Ok exit(s) of %s" % (len(oks), m_.group(1))
+
+
 def string_parsers_rule(run, u):
     """clap's derive turns `#[arg(value_parser = f)]` into `Arg::value_parser::<fn item f>(..)` inside augment_args / augment_subcommands;
     the default is a parser type of clap itself (`clap::builder::*`).  A crate-local function or closure producing a `String` stands
@@ -329,6 +358,11 @@ def string_parsers_rule(run, u):
             seen[k] = seen.get(k, 0) + 1
             if seen[k] > 1:
                 continue
+            if stringy:
+                ident = _identity_parser(u, ty)
+                if ident:
+                    run.ok("R9", k, "command-specific parser that only validates: every Ok value is the typed text itself (%s)" % ident, mir.loc_of(t))
+                    continue
             run.check(not stringy, "R9", k, "command-specific parser of a non-text option (typed value, not bytes handed to the library)",
                       "a string-valued option is parsed by the command's own function `%s` instead of clap's String parser: the text the user typed is rewritten or refused before it reaches the library, which would have written it as typed" % ty[:140], mir.loc_of(t))
     run.check(n >= 20, "R9", "argument definitions", "%d Arg::value_parser calls examined in the derive-generated definitions, none string-valued and command-specific" % n,
